@@ -3,6 +3,7 @@ package sio
 import (
 	"fmt"
 	"reflect"
+	"sync/atomic"
 	"time"
 
 	"github.com/karagenc/socket.io-go/internal/sync"
@@ -40,7 +41,9 @@ type serverSocket struct {
 	joinMu sync.Mutex
 
 	closeOnce sync.Once
-	debug     Debugger
+	// Set by `Disconnect(false)` before the DISCONNECT packet is sent.
+	serverDisconnect atomic.Bool
+	debug            Debugger
 
 	eventHandlers         *eventHandlerStore
 	errorHandlers         *handlerStore[*ServerSocketErrorFunc]
@@ -360,6 +363,9 @@ func (s *serverSocket) onClose(reason Reason) {
 		if !s.Connected() {
 			return
 		}
+		if s.serverDisconnect.Load() {
+			reason = ReasonServerNamespaceDisconnect
+		}
 
 		wg := utils.NewTimeoutWaiter(0)
 		s.disconnectingHandlers.forEach(func(handler *ServerSocketDisconnectingFunc) {
@@ -547,6 +553,9 @@ func (s *serverSocket) Disconnect(close bool) {
 		s.conn.disconnectAll()
 		s.conn.close()
 	} else {
+		// The client may react to the DISCONNECT packet (for example by closing the connection) before
+		// `onClose` is called below. Whichever way the end reaches this socket first, it was caused by this call.
+		s.serverDisconnect.Store(true)
 		s.sendControlPacket(parser.PacketTypeDisconnect, nil)
 		s.onClose(ReasonServerNamespaceDisconnect)
 	}
